@@ -37,7 +37,53 @@ def run(prog, an, rep):
     rep.run_rules(prog, an, [compare_branches_table, dev_lt_table,
                              compare_queues_table, sorted_by_comparators,
                              duplicate_rejected, hotfix_admission,
-                             rejection_guards, target_version_cases])
+                             rejection_guards, target_version_cases,
+                             accumulators_monotone])
+
+
+ACCUMULATORS = ('hfrev', 'micro', 'latest_minor')
+
+
+def accumulators_monotone(prog, an, rep):
+    """"every order of discovery": each version counter learnt from tags /
+    branches is updated as max(<new>, <its previous value>), so the result
+    does not depend on the order in which tags and branches are seen."""
+    R = 'C09.DEP.order-insensitive'
+    n = 0
+    for q in (BR + '.BranchCascade.update_versions',
+              BR + '.BranchCascade._update_major_versions'):
+        f = need_func(an, q)
+        for st in walk_local(f.node, include_root=False):
+            if not (isinstance(st, ast.Assign) and len(st.targets) == 1 and
+                    isinstance(st.targets[0], ast.Attribute) and
+                    st.targets[0].attr in ACCUMULATORS):
+                continue
+            n += 1
+            rep.evaluated()
+            tgt = src(st.targets[0])
+            v = st.value
+            ok = isinstance(v, ast.Call) and src(v.func) == 'max'
+            keeps = False
+            if ok:
+                for a in v.args:
+                    if src(a) == tgt:
+                        keeps = True
+                    elif isinstance(a, ast.Name):
+                        # a list the previous value was appended to,
+                        # unconditionally, before the max
+                        for x in walk_local(f.node, include_root=False):
+                            if isinstance(x, ast.Expr) and \
+                                    src(x.value) == '%s.append(%s)' % (
+                                        a.id, tgt):
+                                pm = parent_map(f.node)
+                                same_block = pm.get(x) is pm.get(st)
+                                keeps = keeps or same_block
+            rep.check(ok and keeps, R, '%s: %s = max(..., previous %s)' % (
+                f.qname, tgt, tgt), f.where(st), '%s is assigned %s: the '
+                'value learnt earlier can be lost, so the computed version '
+                'depends on the order in which tags / branches are '
+                'discovered' % (tgt, src(v)))
+    rep.floor('C09 version accumulators', n, 4)
 
 
 def _ret_values(an, f, env):
